@@ -26,7 +26,7 @@ LIST_PROPS = {
                 quick_max_states=40, level='fault_enumeration', no_random=True),
     # clone in every reachable state, under hashers that change the hash-map iteration order
     'C16': dict(kinds=['raw', 'slru', 'wtlfu'], flags=['--clone', '--no-ro'],
-                variants=[('tracked', 'std'), ('tracked', 'zero'), ('tracked', 'ident')], no_random_only=True, quick_max_states=1500),
+                variants=[('tracked', 'std'), ('tracked', 'zero'), ('tracked', 'ident')], quick_max_states=1500),
 }
 
 ASSUMPTIONS = [
